@@ -551,18 +551,26 @@ void checkL3(const plan::Plan& p, const RunData& rd, hz::RunResult* res) {
           }
         }
       }
-      // and it does publish what it is granted: a value that a client was given at least 10 s before the end shows up
+      // and it does publish what it is granted: the main loop hands a message over to the sinks at its next round (next
+      // request, or after 5 s) unless the message was updated again in the very second of that round, and the handler
+      // publishes within another second. So: a value that was read, with no further exchange of that message for 11 s
+      // and at least 11 s before the end of the run, shows up.
       for (auto& mm : msgs) {
         const MsgModel& m = mm.second;
         if (m.write || (!m.level.empty() && !granted(m.level, sinkLevels))) continue;
-        int64_t firstGood = -1;
-        for (auto e : exchangesOf(m, Bytes(), 0, rd.endT, true)) if (e->answered && !e->slave.empty()) { firstGood = e->t; break; }
-        if (firstGood < 0 || firstGood > rd.endT - 10000 * 1000000LL) continue;   // main loop hands updates over at the next request or after 5 s, the handler publishes within another second
+        auto ex = exchangesOf(m, Bytes(), 0, rd.endT, true);
+        int64_t quietSince = -1;
+        for (size_t i = 0; i < ex.size(); i++) {
+          if (!ex[i]->answered || ex[i]->slave.empty()) continue;
+          int64_t next = i + 1 < ex.size() ? ex[i + 1]->t : rd.endT;
+          if (next - ex[i]->t >= 11000 * 1000000LL && ex[i]->t <= rd.endT - 11000 * 1000000LL) { quietSince = ex[i]->t; break; }
+        }
+        if (quietSince < 0) continue;
         bool pub = false;
-        for (auto& pb : rd.pubs) if (pb.topic == "ebusd/" + m.circuit + "/" + m.name && pb.t >= firstGood) pub = true;
+        for (auto& pb : rd.pubs) if (pb.topic == "ebusd/" + m.circuit + "/" + m.name && pb.t >= quietSince) pub = true;
         if (!pub) {
           char buf2[300];
-          snprintf(buf2, sizeof(buf2), "message %s (level [%s], sink levels [%s]) was read at %.1f ms but never published until %.1f ms", m.name.c_str(), m.level.c_str(), sinkLevels.c_str(), firstGood / 1e6, rd.endT / 1e6);
+          snprintf(buf2, sizeof(buf2), "message %s (level [%s], sink levels [%s]) was read at %.1f ms, not touched for 11 s, but never published until %.1f ms", m.name.c_str(), m.level.c_str(), sinkLevels.c_str(), quietSince / 1e6, rd.endT / 1e6);
           res->violate("C16", "granted-access-denied", "mqtt-sink", buf2);
         }
       }
